@@ -7,7 +7,7 @@
 use crate::node::{fresh_dir, StatusKind};
 use grin_chain::BlockStatus;
 use grin_p2p::ChainAdapter as NetChainAdapter;
-use grin_servers::common::adapters::{ChainToPoolAndNetAdapter, NetToChainAdapter, PoolToChainAdapter};
+use grin_servers::common::adapters::{ChainToPoolAndNetAdapter, NetToChainAdapter, PoolToChainAdapter, PoolToNetAdapter};
 use grin_servers::common::hooks::ChainEvents;
 use grin_util::RwLock;
 use std::sync::Mutex;
@@ -214,15 +214,20 @@ pub enum Op {
 	HeaderAhead { r: u64 },
 }
 
-pub struct PoolSim<'w> {
+pub struct PoolSim<'w, P: PoolAdapter + 'static> {
 	world: &'w mut World,
 	chain: Arc<Chain>,
 	events: Arc<Mutex<Vec<(Hash, StatusKind)>>>,
-	pool: Arc<RwLock<RealPool>>,
+	pool: Arc<RwLock<TransactionPool<PoolToChainAdapter, P>>>,
 	_peers: Arc<grin_p2p::Peers>,
-	net: Arc<RealNet>,
+	net: Arc<NetToChainAdapter<PoolToChainAdapter, P>>,
 	peer_info: grin_p2p::PeerInfo,
-	relay: Arc<SimRelay>,
+	/// direct mode: the simulated Dandelion relay
+	relay: Option<Arc<SimRelay>>,
+	/// network mode: the node's real p2p stack and the simulated peers at the other ends
+	link: Option<crate::netsim::NetLink>,
+	/// network mode: the real `servers::mining::mine_block::get_block` over this node's chain and pool
+	real_miner: Option<Box<dyn Fn() -> Result<Block, String>>>,
 	dir: std::path::PathBuf,
 	/// world block id of the node's head
 	head: usize,
@@ -247,8 +252,8 @@ fn tx_inputs(tx: &Transaction) -> Vec<CommitKey> {
 	v.iter().map(|c| ckey(&c.commitment())).collect()
 }
 
-impl<'w> PoolSim<'w> {
-	pub fn new(world: &'w mut World, start: usize, tag: &str) -> Result<PoolSim<'w>, String> {
+impl<'w> PoolSim<'w, SimRelay> {
+	pub fn new(world: &'w mut World, start: usize, tag: &str) -> Result<PoolSim<'w, SimRelay>, String> {
 		let dir = fresh_dir(tag);
 		let relay = Arc::new(SimRelay {
 			fail_next_stem: std::sync::atomic::AtomicBool::new(false),
@@ -281,7 +286,9 @@ impl<'w> PoolSim<'w> {
 			_peers: peers,
 			net,
 			peer_info: sim_peer_info(),
-			relay,
+			relay: Some(relay),
+			link: None,
+			real_miner: None,
 			dir,
 			head: start,
 			base_blocks,
@@ -291,15 +298,208 @@ impl<'w> PoolSim<'w> {
 			accepted: vec![],
 		})
 	}
+}
 
-	pub fn destroy(self) {
+fn pool_config() -> PoolConfig {
+	PoolConfig {
+		accept_fee_base: global::get_accept_fee_base(),
+		reorg_cache_period: 30,
+		max_pool_size: 50,
+		max_stempool_size: 50,
+		mineable_max_weight: global::max_block_weight(),
+	}
+}
+
+impl<'w> PoolSim<'w, PoolToNetAdapter> {
+	/// Network mode: the node is assembled with its complete p2p stack (E11 netsim); submissions and
+	/// blocks arrive as peer messages, the pool relays through the real `PoolToNetAdapter`.
+	pub fn new_net(world: &'w mut World, start: usize, tag: &str, with_relay: bool) -> Result<PoolSim<'w, PoolToNetAdapter>, String> {
+		let dir = fresh_dir(tag);
+		let base: Vec<Block> = world.path_to(start).into_iter().filter(|i| *i != 0).map(|i| world.blocks[i].block.clone()).collect();
+		let link = crate::netsim::NetLink::new(&dir, world.genesis.clone(), pool_config(), &base, world.opts, with_relay)?;
+		let chain = link.node.chain.clone();
+		let pool = link.node.pool.clone();
+		let events = link.node.events.clone();
+		let peers = link.node.peers.clone();
+		let net = link.node.net.clone();
+		let (c2, p2) = (chain.clone(), pool.clone());
+		let real_miner: Box<dyn Fn() -> Result<Block, String>> = Box::new(move || {
+			let (c, p) = (c2.clone(), p2.clone());
+			let (tx, rx) = std::sync::mpsc::channel();
+			let _ = std::thread::Builder::new().name("netsim-helper".into()).spawn(move || {
+				let r = grin_servers::verif_export::get_block(&c, &p, None, None);
+				let _ = tx.send(r.0);
+			});
+			rx.recv_timeout(std::time::Duration::from_secs(20)).map_err(|_| "mine_block::get_block did not return a block within 20 s (it retries for as long as building fails)".to_string())
+		});
+		let base_blocks = world.blocks.len();
+		let mut ps = PoolSim {
+			world,
+			chain,
+			events,
+			pool,
+			_peers: peers,
+			net,
+			peer_info: sim_peer_info(),
+			relay: None,
+			link: Some(link),
+			real_miner: Some(real_miner),
+			dir,
+			head: start,
+			base_blocks,
+			log: vec![],
+			step: 0,
+			probes: BTreeMap::new(),
+			accepted: vec![],
+		};
+		ps.probe(if with_relay { "net_mode_with_relay_peer" } else { "net_mode_without_relay_peer" });
+		Ok(ps)
+	}
+}
+
+impl<'w, P: PoolAdapter + 'static> PoolSim<'w, P> {
+	pub fn destroy(mut self) {
 		let dir = self.dir.clone();
 		let base = self.base_blocks;
+		if let Some(l) = self.link.as_mut() {
+			l.shutdown();
+		}
 		let world = self.world;
 		world.blocks.truncate(base);
+		drop(self.real_miner);
+		drop(self.link);
 		drop(self.pool);
 		drop(self.chain);
 		let _ = std::fs::remove_dir_all(dir);
+	}
+
+	/// What the relay peer (and the source peer) received from the node since the last call.
+	fn drain_net(&mut self) {
+		let mut seen: Vec<String> = vec![];
+		if let Some(l) = self.link.as_mut() {
+			for slot in 0..l.peers.len() {
+				for m in l.take(slot) {
+					seen.push(format!("{}:{}", slot, crate::netsim::describe(&m).split('(').next().unwrap_or("").to_string()));
+				}
+			}
+		}
+		for s in seen {
+			if s.ends_with("StemTransaction") {
+				self.probe("net_stem_relayed_to_peer");
+			} else if s.ends_with("Transaction") || s.ends_with("TransactionKernel") {
+				self.probe("net_tx_broadcast_to_peer");
+			} else if s.ends_with("Header") || s.ends_with("CompactBlock") {
+				self.probe("net_block_broadcast_to_peer");
+			}
+		}
+	}
+
+	/// Network mode: serve what the node asked of peer 0 after a delivery (compact block, full block,
+	/// transaction by kernel hash) from what the simulated peer has.
+	fn serve_net(&mut self, blocks: &[Block], txs: &[Transaction]) -> Result<(), Violation> {
+		for _ in 0..8 {
+			let inbox = match self.link.as_mut() {
+				Some(l) => l.take(0),
+				None => return Ok(()),
+			};
+			let mut asked = false;
+			for m in inbox {
+				use grin_p2p::msg::{Message, Type};
+				match m {
+					Message::GetCompactBlock(h) => {
+						if let Some(b) = blocks.iter().find(|b| b.hash() == h) {
+							let cb = crate::wiresim::det_compact_block(b, fnv64(h.as_bytes()).rotate_left(17), grin_core::ser::ProtocolVersion::local());
+							self.probe("net_compact_block_requested");
+							self.net_send(0, Type::CompactBlock, cb)?;
+							asked = true;
+						}
+					}
+					Message::GetBlock(h) => {
+						if let Some(b) = blocks.iter().find(|b| b.hash() == h) {
+							self.probe("net_full_block_requested");
+							self.net_send(0, Type::Block, b.clone())?;
+							asked = true;
+						}
+					}
+					Message::GetTransaction(h) => {
+						if let Some(t) = txs.iter().find(|t| t.kernels().iter().any(|k| k.hash() == h)) {
+							self.probe("net_transaction_requested_by_kernel_hash");
+							self.net_send(0, Type::Transaction, t.clone())?;
+							asked = true;
+						}
+					}
+					_ => {}
+				}
+			}
+			if !asked {
+				return Ok(());
+			}
+		}
+		Ok(())
+	}
+
+	fn net_send<T: grin_core::ser::Writeable>(&mut self, slot: usize, ty: grin_p2p::msg::Type, body: T) -> Result<(), Violation> {
+		let step = self.step;
+		match self.link.as_mut() {
+			Some(l) => l.send(slot, ty, body).map_err(|e| viol("net-delivery-failed", format!("step {}: {}", step, e))),
+			None => Ok(()),
+		}
+	}
+
+	fn pooled_kernels(&self, with_stem: bool) -> BTreeSet<Hash> {
+		let p = self.pool.read();
+		let mut s: BTreeSet<Hash> = p.txpool.all_transactions().iter().flat_map(|t| t.kernels().iter().map(|k| k.hash()).collect::<Vec<_>>()).collect();
+		if with_stem {
+			for t in p.stempool.all_transactions() {
+				for k in t.kernels() {
+					s.insert(k.hash());
+				}
+			}
+		}
+		s
+	}
+
+	/// One submission: straight into the pool (direct mode), or as a peer message through the real
+	/// Protocol and NetToChainAdapter (network mode; one in three announced by kernel hash first).
+	/// Returns Ok(class) with class "accepted" or the refusal class.
+	fn deliver_tx(&mut self, tx: &Transaction, stem: bool, header: &BlockHeader, r: u64) -> Result<(String, bool), Violation> {
+		if self.link.is_none() {
+			let res = self.pool.write().add_to_pool(TxSource::Broadcast, tx.clone(), stem, header);
+			return Ok(match res {
+				Ok(()) => ("accepted".to_string(), true),
+				Err(e) => {
+					let s = format!("{:?}", e);
+					(s.split(|c: char| c == '(' || c == ' ' || c == '{').next().unwrap_or("").to_string(), false)
+				}
+			});
+		}
+		use grin_p2p::msg::Type;
+		let before = self.pooled_kernels(stem);
+		let before_any = self.pooled_kernels(true);
+		if stem {
+			self.net_send(0, Type::StemTransaction, tx.clone())?;
+		} else if r % 3 == 0 && !tx.kernels().is_empty() {
+			self.probe("net_tx_announced_by_kernel_hash");
+			self.net_send(0, Type::TransactionKernel, tx.kernels()[0].hash())?;
+			self.serve_net(&[], &[tx.clone()])?;
+		} else {
+			self.net_send(0, Type::Transaction, tx.clone())?;
+		}
+		let after = self.pooled_kernels(stem);
+		let all_in = tx.kernels().iter().all(|k| after.contains(&k.hash()));
+		let all_before = tx.kernels().iter().all(|k| before.contains(&k.hash()));
+		let _ = before_any;
+		let ok = all_in && !all_before;
+		if !ok && std::env::var("VERIF_NET_DEBUG").is_ok() {
+			use grin_p2p::ChainAdapter as _;
+			let via = self.net.transaction_received(tx.clone(), stem);
+			let bytes = grin_core::ser::ser_vec(tx, grin_core::ser::ProtocolVersion::local()).unwrap();
+			let back: Result<Transaction, _> = grin_core::ser::deserialize(&mut &bytes[..], grin_core::ser::ProtocolVersion::local(), grin_core::ser::DeserializationMode::default());
+			eprintln!("  adapter direct says {:?}; wire roundtrip {:?}; conn alive {:?}", via, back.map(|t| t.hash()), self.link.as_ref().map(|l| l.peers[0].alive));
+			let again = self.pool.write().add_to_pool(TxSource::Broadcast, tx.clone(), stem, header);
+			eprintln!("net refused: kernel_first={} ins={} outs={} kernels={} stem={} all_in={} all_before={} direct add_to_pool now says {:?}; syncing={}", !stem && r % 3 == 0, tx.inputs().len(), tx.outputs().len(), tx.kernels().len(), stem, all_in, all_before, again, self.link.as_ref().map(|l| l.node.sync.is_syncing()).unwrap_or(false));
+		}
+		Ok((if ok { "accepted".to_string() } else { "refused".to_string() }, ok))
 	}
 
 	fn probe(&mut self, k: &str) {
@@ -389,6 +589,52 @@ impl<'w> PoolSim<'w> {
 		}
 	}
 
+	/// Network mode: the node's own block builder (`servers::mining::mine_block::get_block`, which takes
+	/// the mineable set from the pool, burns the reward and sets the roots) must come back with a block
+	/// within the weight limit, and a replica opened on a copy of the node's data directory must accept
+	/// that block once the simulator has solved its proof of work.
+	fn real_mine_check(&mut self) -> Result<(), Violation> {
+		let step = self.step;
+		let mut b = match &self.real_miner {
+			None => return Ok(()),
+			Some(m) => m().map_err(|e| viol("mineable-set-does-not-assemble", format!("step {}: {}", step, e)))?,
+		};
+		self.probe("real_mine_block_built");
+		if b.kernels().len() > 1 {
+			self.probe("real_mine_block_with_transactions");
+		}
+		let w = b.body.weight();
+		if w > global::max_block_weight() {
+			return Err(viol("mineable-set-too-heavy", format!("step {}: the block built by mine_block::get_block weighs {} > {}", step, w, global::max_block_weight())));
+		}
+		let prev = self.chain.head_header().map_err(|e| viol("head-error", format!("{:?}", e)))?;
+		let diff = b.header.total_difficulty() - prev.total_difficulty();
+		b.header.pow.nonce = 0;
+		if pow::pow_size(&mut b.header, diff, global::proofsize(), global::min_edge_bits()).is_err() {
+			return Err(viol("harness-pow", format!("step {}: no proof of work found", step)));
+		}
+		let copy = fresh_dir("mine-replica");
+		crate::node::copy_dir(&self.dir.join("chain_data"), &copy.join("chain_data")).map_err(|e| viol("harness-copy", format!("{}", e)))?;
+		let res = {
+			let replica = crate::node::Node::open_at(copy.clone(), self.world.genesis.clone(), false);
+			match replica {
+				Ok(mut n) => {
+					let same_head = n.chain().head().map(|h| h.last_block_h == prev.hash()).unwrap_or(false);
+					let r = if same_head { n.chain().process_block(b.clone(), grin_chain::Options::NONE).map(|_| ()).map_err(|e| format!("{:?}", e)) } else { Err("replica opened on another head".to_string()) };
+					n.destroy();
+					r
+				}
+				Err(e) => Err(format!("replica Chain::init: {:?}", e)),
+			}
+		};
+		let _ = std::fs::remove_dir_all(&copy);
+		match res {
+			Ok(()) => Ok(()),
+			Err(e) if e.starts_with("replica") => Err(viol("harness-replica", format!("step {}: {}", step, e))),
+			Err(e) => Err(viol("mineable-block-refused", format!("step {}: the block built by mine_block::get_block from the pool ({} kernels, weight {}) is refused by the chain: {}", step, b.kernels().len(), w, e))),
+		}
+	}
+
 	/// Build a block on the node's head with `txs`, add it to the world (builder) and deliver it.
 	fn mine(&mut self, txs: Vec<Transaction>, what: &str) -> Result<(), Violation> {
 		let parent = self.head;
@@ -422,7 +668,34 @@ impl<'w> PoolSim<'w> {
 		// adapter would have asked for it), header first, or - one in four - straight into the chain
 		let bh = b.hash();
 		let mode = fnv64(bh.as_bytes()) % 4;
-		let how = match mode {
+		let how = if self.link.is_some() && mode != 3 {
+			use grin_p2p::msg::Type;
+			let how = match mode {
+				0 => {
+					self.net_send(0, Type::Block, b.clone())?;
+					"full block over the wire"
+				}
+				1 => {
+					let cb = crate::wiresim::det_compact_block(&b, fnv64(bh.as_bytes()).rotate_left(17), grin_core::ser::ProtocolVersion::local());
+					self.net_send(0, Type::CompactBlock, cb)?;
+					"compact block over the wire"
+				}
+				_ => {
+					self.probe("block_delivered_header_first");
+					self.net_send(0, Type::Header, b.header.clone())?;
+					"header first over the wire"
+				}
+			};
+			self.serve_net(&[b.clone()], &[])?;
+			if !self.chain.block_exists(bh).unwrap_or(false) {
+				// the peer pushes the full block when the node did not come back for it
+				self.net_send(0, Type::Block, b.clone())?;
+				self.serve_net(&[b.clone()], &[])?;
+			}
+			self.drain_net();
+			how
+		} else {
+		match mode {
 			0 => {
 				let _ = self.net.block_received(b.clone(), &self.peer_info, self.world.opts);
 				"full block via adapter"
@@ -448,6 +721,7 @@ impl<'w> PoolSim<'w> {
 				let _ = self.chain.process_block(b.clone(), self.world.opts);
 				"process_block"
 			}
+		}
 		};
 		if !self.chain.block_exists(bh).unwrap_or(false) {
 			let again = self.chain.process_block(b, self.world.opts);
@@ -471,6 +745,7 @@ impl<'w> PoolSim<'w> {
 				out
 			}
 			Op::MinePool { .. } => {
+				self.real_mine_check()?;
 				let prepared = self.pool.read().prepare_mineable_transactions();
 				let txs = prepared
 					.map_err(|e| viol("prepare-mineable-failed", format!("step {}: {:?}", self.step, e)))?;
@@ -861,22 +1136,26 @@ impl<'w> PoolSim<'w> {
 		let stem = stem && *kind != Submit::AggregatedUnderFee && *kind != Submit::FluffStemmed;
 		if stem && rng.chance(1, 4) {
 			// no relay peer for this one: add_to_pool falls back to the txpool
-			self.relay.fail_next_stem.store(true, std::sync::atomic::Ordering::SeqCst);
+			if let Some(relay) = &self.relay {
+				relay.fail_next_stem.store(true, std::sync::atomic::Ordering::SeqCst);
+			}
 		}
 		let over_capacity = self.pool.read().txpool.size() >= self.pool.read().config.max_pool_size;
-		let res = self.pool.write().add_to_pool(TxSource::Broadcast, tx.clone(), stem, &header);
-		let cls = match &res {
-			Ok(()) => "accepted".to_string(),
-			Err(e) => {
-				let s = format!("{:?}", e);
-				s.split(|c: char| c == '(' || c == ' ' || c == '{').next().unwrap_or("").to_string()
-			}
-		};
-		let relay_failed = self.relay.stem_relay_failed.swap(0, std::sync::atomic::Ordering::SeqCst) > 0;
-		self.relay.fail_next_stem.store(false, std::sync::atomic::Ordering::SeqCst);
-		if relay_failed {
-			self.probe("stem_relay_failed_fell_back_to_fluff");
+		if self.link.is_some() && (over_capacity || self.pool.read().total_size() >= self.pool.read().config.max_pool_size) {
+			// over the wire only the pool's contents tell whether a transaction was taken; at capacity
+			// an admitted transaction may be the one evicted right away, so no answer is expected
+			expect = None;
 		}
+		let (cls, ok) = self.deliver_tx(&tx, stem, &header, r)?;
+		let res: Result<(), ()> = if ok { Ok(()) } else { Err(()) };
+		if let Some(relay) = &self.relay {
+			let relay_failed = relay.stem_relay_failed.swap(0, std::sync::atomic::Ordering::SeqCst) > 0;
+			relay.fail_next_stem.store(false, std::sync::atomic::Ordering::SeqCst);
+			if relay_failed {
+				self.probe("stem_relay_failed_fell_back_to_fluff");
+			}
+		}
+		self.drain_net();
 		if res.is_ok() {
 			self.accepted.push(tx);
 			self.probe(if stem { "stem_accepted" } else { "fluff_accepted" });
@@ -1128,11 +1407,50 @@ pub fn build_world(seed: u64) -> Result<(World, usize), String> {
 	Ok((w, tip))
 }
 
+/// How the node of a run is assembled and reached.
+#[derive(Clone, Copy, Debug, PartialEq)]
+pub enum Mode {
+	/// pool driven directly, blocks through the NetToChainAdapter's methods, simulated relay
+	Direct,
+	/// everything arrives as peer messages through the node's real p2p stack (E11 netsim)
+	Net { with_relay: bool },
+}
+
+impl Mode {
+	pub fn name(&self) -> &'static str {
+		match self {
+			Mode::Direct => "direct",
+			Mode::Net { with_relay: true } => "net+relay",
+			Mode::Net { with_relay: false } => "net",
+		}
+	}
+	pub fn from_name(s: &str) -> Mode {
+		match s {
+			"net+relay" => Mode::Net { with_relay: true },
+			"net" => Mode::Net { with_relay: false },
+			_ => Mode::Direct,
+		}
+	}
+}
+
 pub fn run_ops(world: &mut World, start: usize, ops: &[Op], tag: &str, acc: Option<&mut CaseResult>) -> (Option<Violation>, u64, Vec<String>, u64) {
-	let mut sim = match PoolSim::new(world, start, tag) {
-		Ok(s) => s,
-		Err(e) => return (Some(viol("setup-failed", e)), 0, vec![], 0),
-	};
+	run_ops_mode(world, start, ops, tag, acc, Mode::Direct)
+}
+
+pub fn run_ops_mode(world: &mut World, start: usize, ops: &[Op], tag: &str, acc: Option<&mut CaseResult>, mode: Mode) -> (Option<Violation>, u64, Vec<String>, u64) {
+	match mode {
+		Mode::Direct => match PoolSim::new(world, start, tag) {
+			Ok(s) => run_sim(s, ops, acc),
+			Err(e) => (Some(viol("setup-failed", e)), 0, vec![], 0),
+		},
+		Mode::Net { with_relay } => match PoolSim::new_net(world, start, tag, with_relay) {
+			Ok(s) => run_sim(s, ops, acc),
+			Err(e) => (Some(viol("setup-failed", e)), 0, vec![], 0),
+		},
+	}
+}
+
+fn run_sim<P: PoolAdapter + 'static>(mut sim: PoolSim<P>, ops: &[Op], acc: Option<&mut CaseResult>) -> (Option<Violation>, u64, Vec<String>, u64) {
 	let mut v = None;
 	for op in ops {
 		if let Err(e) = sim.exec(op) {
@@ -1214,7 +1532,12 @@ pub fn case(tier: &str, seed: u64, case: u64) -> CaseResult {
 	for run in 0..runs {
 		let mut rr = rng.fork(&format!("pool{}", run));
 		let ops = gen_ops(&mut rr, thorough);
-		let (v, digest, log, steps) = run_ops(&mut world, start, &ops, &format!("pool-c{}r{}", case, run), Some(&mut res));
+		// every other run is a network run (three in four of those with a Dandelion relay peer)
+		let mode = if run % 2 == 1 { Mode::Net { with_relay: (run / 2 + case) % 4 != 3 } } else { Mode::Direct };
+		if mode != Mode::Direct {
+			res.probe("netsim_runs");
+		}
+		let (v, digest, log, steps) = run_ops_mode(&mut world, start, &ops, &format!("pool-c{}r{}", case, run), Some(&mut res), mode);
 		res.runs += 1;
 		res.steps += steps;
 		res.run_digests.push((digest, true));
@@ -1237,17 +1560,17 @@ pub fn case(tier: &str, seed: u64, case: u64) -> CaseResult {
 				&ops,
 				|cand| {
 					n += 1;
-					let (v2, _, _, _) = run_ops(&mut world, start, cand, &format!("pool-min{}", n), None);
+					let (v2, _, _, _) = run_ops_mode(&mut world, start, cand, &format!("pool-min{}", n), None, mode);
 					v2.map(|x| x.key == key).unwrap_or(false)
 				},
-				40,
+				if mode == Mode::Direct { 40 } else { 16 },
 			);
-			let (v3, _, log3, _) = run_ops(&mut world, start, &min_ops, "pool-minfinal", None);
+			let (v3, _, log3, _) = run_ops_mode(&mut world, start, &min_ops, "pool-minfinal", None, mode);
 			let what = v3.map(|x| x.what).unwrap_or(v.what.clone());
 			res.violations.push(Violation {
 				key: v.key,
 				what: format!("{} [minimised from {} to {} ops]", what, ops.len(), min_ops.len()),
-				replay: json!({"engine": "poolsim", "property": "C14", "case_seed": seed, "ops": serde_json::to_value(&min_ops).unwrap(), "log": log3}),
+				replay: json!({"engine": "poolsim", "property": "C14", "case_seed": seed, "mode": mode.name(), "ops": serde_json::to_value(&min_ops).unwrap(), "log": log3}),
 			});
 			break;
 		}
@@ -1261,7 +1584,8 @@ pub fn replay(rp: &Value) -> Result<Option<Violation>, String> {
 	let seed = rp["case_seed"].as_u64().ok_or("no case_seed")?;
 	let ops: Vec<Op> = serde_json::from_value(rp["ops"].clone()).map_err(|e| format!("{}", e))?;
 	let (mut world, start) = build_world(seed)?;
-	let (v, _, log, _) = run_ops(&mut world, start, &ops, "pool-replay", None);
+	let mode = Mode::from_name(rp["mode"].as_str().unwrap_or("direct"));
+	let (v, _, log, _) = run_ops_mode(&mut world, start, &ops, "pool-replay", None, mode);
 	for l in log {
 		println!("  {}", l);
 	}
